@@ -249,6 +249,11 @@ func checkRoundTrip(s Session, r *sessRun) *Violation {
 			v.Tag = "precision-shifts-list-context"
 			return v
 		}
+		if f0 := parseArgv(s.Procs[0].Argv); where14(p, e)[:6] == "top-v1" && f0.setkeys != "" && (f0.set || f0.mset) && strings.Contains(string(res.Stderr), "expected object with id") {
+			v := viol14("round-trip-status", p, e, "v1 library with -set/-mset and -setkeys: the diff addresses a keyed member by its whole content instead of its keys, so after the first hunk changed the member the next hunk cannot find it: `jd %s` then `jd %s` failed with status %d: %s", strings.Join(s.Procs[0].Argv, " "), strings.Join(p.Argv, " "), res.Code, show(maskStamp(res.Stderr)))
+			v.Tag = "v1-setkeys-path-holds-whole-member"
+			return v
+		}
 		if where14(p, e)[:6] == "top-v1" && s.RT.Arrays != "list" && v1HashAliasing(s, cmpMode{Arrays: s.RT.Arrays, Eps: s.RT.Eps}) {
 			v := viol14("round-trip-status", p, e, "v1 library, arrays as %s: two different array members have the same v1 hash code, the diff addresses one through the other's identity: `jd %s` then `jd %s` failed with status %d: %s", s.RT.Arrays, strings.Join(s.Procs[0].Argv, " "), strings.Join(p.Argv, " "), res.Code, show(maskStamp(res.Stderr)))
 			v.Tag = "v1-set-hash-aliasing"
